@@ -33,6 +33,8 @@ var namedBehaviours = [][]op{
 	{{Op: "hj", C: 3}, {Op: "wh", C: 501}},
 	{{Op: "wh", C: 200}, {Op: "fl"}, {Op: "w"}},
 	{{Op: "fl"}, {Op: "wh", C: 500}},
+	{{Op: "srd"}, {Op: "swd"}, {Op: "wh", C: 200}, {Op: "w"}},
+	{{Op: "efd"}, {Op: "w"}},
 }
 
 // loopbackBehaviours are the ones a real net/http server and client carry
@@ -42,6 +44,9 @@ var loopbackBehaviours = [][]op{
 	namedBehaviours[0], namedBehaviours[1], namedBehaviours[2], namedBehaviours[3], namedBehaviours[4],
 	namedBehaviours[5], namedBehaviours[6], namedBehaviours[9], namedBehaviours[10], namedBehaviours[11],
 	namedBehaviours[12],
+	// optional capabilities against the real server's writer: Hijack (the handler answers 299 by hand on the
+	// connection), Flush, deadlines, full duplex
+	namedBehaviours[14], namedBehaviours[14], namedBehaviours[17], namedBehaviours[18], namedBehaviours[19], namedBehaviours[20],
 }
 
 var someCodes = []int{100, 101, 103, 200, 201, 204, 301, 304, 400, 403, 404, 418, 500, 503, 599, 999}
@@ -82,11 +87,11 @@ func expectedFin(ops []op) int {
 
 // slot is one client goroutine of the stress run.
 type slot struct {
-	id   int
-	rnd  *rand.Rand
-	cur  *reqState
-	done []*reqState
-	hs   []http.Handler // one per entry point of the topology
+	id    int
+	rnd   *rand.Rand
+	cur   *reqState
+	done  []*reqState
+	inner http.Handler // the slot's inner handler
 }
 
 type stressCfg struct {
@@ -94,7 +99,8 @@ type stressCfg struct {
 	retain  bool
 	off     bool
 	shared  bool    // one wrapped handler for all clients; the inner handler finds its request through the context it is given
-	mwOff   bool    // middleware level below the base handler's minimum level
+	mwOff   bool    // middleware level below the base handler's minimum level when the middleware is built
+	raise   bool    // ... and the level is lowered to the middleware's (SetLevel) before the requests start
 	nmw     int     // LogMiddleware instances (default 1)
 	routes  [][]int // entry points: each request takes one of them at random (default: [1])
 	clients int
@@ -115,19 +121,17 @@ func runStress(c stressCfg, res *vh.Result, seedStream uint64) (requests, policy
 	if len(routes) == 0 {
 		routes = [][]int{{1}}
 	}
-	sharedHs := make([]http.Handler, len(routes))
-	for k, rt := range routes {
-		sharedHs[k] = through(mws, rt, e.inner(func(r *http.Request) *reqState { return stateOf(r.Context()) }))
+	if c.raise {
+		e.setLevel(true) // the environment changes the level after construction
 	}
+	sharedInner := e.inner(func(r *http.Request) *reqState { return stateOf(r.Context()) })
 	slots := make([]*slot, c.clients)
 	for i := range slots {
 		s := &slot{id: i + 1, rnd: vh.Rand(seedStream + uint64(i))}
 		if c.shared {
-			s.hs = sharedHs
+			s.inner = sharedInner
 		} else {
-			for _, rt := range routes {
-				s.hs = append(s.hs, through(mws, rt, e.inner(func(*http.Request) *reqState { return s.cur })))
-			}
+			s.inner = e.inner(func(*http.Request) *reqState { return s.cur })
 		}
 		slots[i] = s
 	}
@@ -148,10 +152,13 @@ func runStress(c stressCfg, res *vh.Result, seedStream uint64) (requests, policy
 				entry := s.rnd.IntN(len(routes))
 				st.route = routes[entry]
 				s.cur = st
+				st.begin(e)
+				// httputil.Wrap(inner, foreign..., logMiddlewares...) for this request's wrappers and route
+				h := throughUp(st.up, mws, st.route, s.inner)
 				if c.tr != nil {
 					c.tr.begin(st)
 				}
-				if pv, panicked := vh.Try(func() { s.hs[entry].ServeHTTP(st.w, r) }); panicked {
+				if pv, panicked := vh.Try(func() { h.ServeHTTP(st.w, r) }); panicked {
 					panics[i] = pv
 					st.problem("ServeHTTP panicked: %v", pv)
 				}
@@ -169,7 +176,7 @@ func runStress(c stressCfg, res *vh.Result, seedStream uint64) (requests, policy
 	for _, s := range slots {
 		for _, st := range s.done {
 			requests++
-			dd.Add([]byte(fmt.Sprint(opsKey(st.ops), st.route)))
+			dd.Add([]byte(fmt.Sprint(opsKey(st.ops), st.route, st.up)))
 			pr, pol := st.check(e, expectedFin(st.ops))
 			if pol {
 				policy++
@@ -178,8 +185,8 @@ func runStress(c stressCfg, res *vh.Result, seedStream uint64) (requests, policy
 				diverge++
 			}
 			if len(pr) > 0 {
-				res.Mismatch(fmt.Sprintf("LogMiddleware stress %s (VERIF_SEED=%d): request %d of client %d through middleware(s) %v, handler does %s",
-					c.name, vh.Seed(), st.spec.rid, s.id, st.route, opsKey(st.ops)), pr[0], map[string]any{"problems": pr})
+				res.Mismatch(fmt.Sprintf("LogMiddleware stress %s (VERIF_SEED=%d): request %d of client %d through foreign wrappers %v and LogMiddleware(s) %v, handler does %s",
+					c.name, vh.Seed(), st.spec.rid, s.id, st.up, st.route, opsKey(st.ops)), pr[0], map[string]any{"problems": pr})
 			}
 		}
 	}
@@ -222,6 +229,7 @@ func stress(args []string) error {
 		{name: "disabled handler", off: true},
 		{name: "middleware level below the handler's minimum level", mwOff: true, retain: true},
 		{name: "middleware level below the handler's minimum level, shared wrapped handler", mwOff: true, shared: true},
+		{name: "level enabled after the middleware was built (SetLevel)", mwOff: true, raise: true, retain: true},
 		{name: "outer(inner) chain and the inner instance alone, mixed entry points", retain: true, nmw: 2,
 			routes: [][]int{{1, 2}, {2}}},
 		{name: "outer(inner) chain, the inner and the outer instance alone, shared wrapped handlers", shared: true, nmw: 2,
